@@ -403,6 +403,22 @@ def case_hostile(spec, cov, out):
                 tr.v("impossible-exchange-succeeds/icmp", f"{kind}: ping from ha to the unowned address {tgt} succeeded")
             if kind == "chain" and owners and got is False:
                 tr.v("permitted-exchange-fails/icmp", f"ping across 6 switches to {tgt} failed")
+        if kind.startswith("dead-lan"):
+            # the path comes back in the SAME timestep (no tick in between): the very next ping must get through again
+            undo = {"port": ["network", "node", "r2", "network_interface", 1, "enable"], "hostoff": ["network", "node", "hb", "startup"],
+                    "nic": ["network", "node", "hb", "network_interface", 1, "enable"]}[kind.split("-")[2]]
+            sim.apply_request(undo)
+            tr.new_op(("ha", "10.2.0.10", kind + ":revived-same-tick"))
+            try:
+                got = ha.ping("10.2.0.10", pings=3)
+            except RecursionError:
+                tr.v("recursion-error-while-forwarding", f"{kind}: ping after revival: RecursionError")
+                got = None
+            cov.inc("hostile_pings")
+            cov.inc("revived_same_tick_pings")
+            hb_on = sim.network.get_node_by_hostname("hb").operating_state.name == "ON"
+            if got is False and hb_on:
+                tr.v("permitted-exchange-fails/icmp", f"{kind}: the path to 10.2.0.10 was restored within the timestep but the next ping from ha still failed")
     finally:
         probes.uninstall_all()
 
